@@ -429,6 +429,47 @@ def setup(run):
     return binary, jbin
 
 
+def e2e_terminal(run, binary, tmp, tier):
+    """The real CLI on a pseudo terminal: the detailed progress bar is drawn, so the boss sends progress markers BETWEEN the
+    chunks of a large file.  Lengths of several MiB (fresh destination, and one holding older longer files): exit 0 means
+    identical bytes and times."""
+    import crash_lib as cl
+    rng = run.rng
+    lens = [3 * 1024 * 1024, 4 * 1024 * 1024 + 1, 9 * 1024 * 1024 + 12345] if tier == 'quick' else \
+           [1024 * 1024 + 1, 3 * 1024 * 1024, 4 * 1024 * 1024, 4 * 1024 * 1024 + 1, 9 * 1024 * 1024 + 12345, 20 * 1024 * 1024 + 7, 33 * 1024 * 1024]
+    for variant in ('fresh', 'longer-old'):
+        base = os.path.join(tmp, 'tty_' + variant)
+        shutil.rmtree(base, ignore_errors=True)
+        os.makedirs(base)
+        src = {'': {'k': 'dir'}}
+        dest = {'': {'k': 'dir'}}
+        for i, n in enumerate(lens):
+            src['t%d.bin' % i] = {'k': 'file', 'len': n, 'fill': 17 + i, 'mtime_ns': 1_600_000_000_000_000_000 + i}
+            if variant == 'longer-old':
+                dest['t%d.bin' % i] = {'k': 'file', 'len': n + rng.choice([1, 4096, 1024 * 1024]), 'fill': 99 + i, 'mtime_ns': 1_500_000_000_000_000_000}
+        e2e.build_tree(os.path.join(base, 'src'), src)
+        e2e.build_tree(os.path.join(base, 'dest'), dest)
+        env = dict(os.environ)
+        env.pop('RUST_LOG', None)
+        env['TERM'] = 'xterm'
+        rc, out, _, to = cl._run_pty([binary, os.path.join(base, 'src'), os.path.join(base, 'dest'), '--dest-file-newer', 'overwrite', '--dest-file-older', 'overwrite'],
+                                     env, base, 300)
+        want = e2e.snapshot(os.path.join(base, 'src'))
+        got = e2e.snapshot(os.path.join(base, 'dest'))
+        run.count('e2e-terminal:' + variant)
+        run.case(('e2e-terminal', variant, tuple(lens)), True, sample={'driver': 'e2e-terminal', 'variant': variant, 'lengths': lens, 'exit': rc})
+        run.traces_validated += 1
+        rep = {'driver': 'e2e-terminal', 'variant': variant, 'lengths': lens, 'exit': rc, 'tail': out[-400:].decode('latin1')}
+        if to or rc != 0:
+            run.fail('C11 e2e on a terminal (%s): sync of an unchanging tree did not succeed (exit %s, timed out %s)' % (variant, rc, to), rep)
+        else:
+            for k in sorted(want):
+                if want[k] != got.get(k):
+                    run.fail('C11 e2e on a terminal (%s): exit 0 but destination file %s differs from the source (%r vs %r)' % (variant, k, got.get(k), want[k]), rep)
+                    break
+        shutil.rmtree(base, ignore_errors=True)
+
+
 def check(run):
     binary, jbin = setup(run)
     tmp = tempfile.mkdtemp(prefix='c11_', dir=vlib.CACHE)
@@ -455,6 +496,7 @@ def check(run):
         run_relay_cases(run, binary, jbin, tmp, gen_zero_relay_cases(run, tier), label='relayz')
         # (c)
         e2e_cases(run, binary, tmp, tier)
+        e2e_terminal(run, binary, tmp, tier)
 
         def search():
             """Something (a proof, the correspondence) broke but no failing input was seen: push the
